@@ -105,6 +105,16 @@ func c02cases(tier string) []c02case {
 			}
 		}
 	}
+	// the short-branch fork again and again: whether the forked sibling counts as a token of the instance from the moment it
+	// is forked is a matter of microseconds per run (the forking token runs into its end event while the sibling's
+	// goroutine starts) — many runs, each a few milliseconds
+	reps := 96
+	if tier == "thorough" {
+		reps = 600
+	}
+	for rep := 0; rep < reps; rep++ {
+		cs = append(cs, c02case{shape: "forkshort", n: 2 + rep%2, scen: "free", hist: c02hists[[]int{0, 5, 2}[rep%3]]})
+	}
 	// an activity with a NON-interrupting boundary event that fires: the exception path is a token of the instance
 	// like any other — completion only after it has ended too (the normal path is answered first, a wait is made while
 	// the exception path's task is still pending, then that task is answered)
